@@ -476,6 +476,18 @@ def c05_corpus(keys, rng):
                 ops.append("sign %s %s %s %s,%s -" % (hx("client1"), hx("10.0.0.1"), n0, dm, dat))
         ops.append("export")
         H.append({"cfg": cfg, "ops": ops, "accts": accts, "opts": {}})
+    # through the real gRPC API (TLS, interceptors, handlers): the source address is the REMOTE end of the connection.
+    # The server end is always 127.0.0.1; requests come from 127.0.0.1 / .2 / .3, admin lists name one, two or none of them.
+    for admins in (["127.0.0.1"], ["127.0.0.2"], ["127.0.0.3", "127.0.0.2"], []):
+        cfg = ["viagrpc"] + hist.config_lines(accts, perms, admins)
+        ops = []
+        for pfx in (DOM_EXIT, DOM_RANDAO, DOM_ATT):
+            dom = (pfx + bytes(28)).hex()
+            for ip in ("127.0.0.1", "127.0.0.2", "127.0.0.3"):
+                ops.append("sign %s %s %s %s,%s -" % (hx("client1"), hx(ip), n0, dom, r32))
+                ops.append("msign %s %s - %s,%s,%s;n:%s,%s,%s" % (hx("client1"), hx(ip), n0, (DOM_RANDAO + bytes(28)).hex(), r32,
+                                                                  hx(accts[1].path), dom, r32))
+        H.append({"cfg": cfg, "ops": ops, "accts": accts, "opts": {}})
     return H
 
 
@@ -487,7 +499,9 @@ def c06_faults(keys, rng):
     r32 = (bytes([0xA1]) * 32).hex()
     H = []
     dom_r = (DOM_RANDAO + bytes(28)).hex()
-    for fault in ["f0", "s", "S", "g0"]:
+    # "b": badger refuses writes (the state its Close puts it in first) while reads work; "c": shutdown really begins
+    # (context cancelled, store closing) while the request stands at its state write, and the store is reopened afterwards
+    for fault in ["f0", "s", "S", "g0", "b", "c"]:
         H.append({"cfg": cfg, "accts": accts, "opts": {}, "ops": [
             att_line("client1", ns[0], 1, 2, 0), att_line("client1", ns[0], 2, 3, 0, faults=fault),
             att_line("client1", ns[0], 2, 3, 1), att_line("client1", ns[0], 3, 4, 1), "export"]})
@@ -498,7 +512,9 @@ def c06_faults(keys, rng):
         "sign %s - %s %s,%s g0" % (hx("client1"), ns[0], dom_r, r32), "sign %s - %s %s,%s -" % (hx("client1"), ns[0], dom_r, r32)]})
     for n in (1, 2, 3, 4):
         for pos in range(n):
-            for fault in ["f%d" % pos, "s", "S", "g%d" % pos]:
+            for fault in ["f%d" % pos, "s", "S", "g%d" % pos] + (["b"] if pos == 0 else []) + (["c"] if n == 1 else []):
+                # ("c" only for one-entry batches: a multi-entry badger WriteBatch flushed into a closing store waits for ever
+                #  inside badger — a shutdown-window hang that releases nothing, outside C06)
                 items = ";".join(att_item(ns[i], 1, 2, i % 4) for i in range(n))      # distinct data per position
                 items2 = ";".join(att_item(ns[i], 2, 3, (i + 1) % 4) for i in range(n))
                 H.append({"cfg": cfg, "accts": accts, "opts": {}, "ops": [
@@ -576,13 +592,13 @@ def c06(rep, tier, seed, wd, replay):
                 toks = [] if fl == "-" else fl.split(",")
                 if f[0] in ("att", "prop"):
                     key = hist.key_of_addr(f[3], h["accts"])
-                    onpath = any(t[0] in "fsSg" for t in toks) or (key, 2 if f[0] == "att" else 3) in bad
+                    onpath = any(t[0] in "fsSgbc" for t in toks) or (key, 2 if f[0] == "att" else 3) in bad
                     if onpath and poss:
                         yield ("jfault %d" % (1 if ":" in poss[0] else 0), (i, 0, op[:200]))
                 elif f[0] == "atts":
                     items = f[4].split(";")
                     keys = [hist.key_of_addr(it.split(",")[0], h["accts"]) for it in items]
-                    whole = any(t[0] in "fsS" for t in toks) or (len(items) > 1 and any((k, 2) in bad for k in keys))
+                    whole = any(t[0] in "fsSbc" for t in toks) or (len(items) > 1 and any((k, 2) in bad for k in keys))
                     for j, pos in enumerate(poss):
                         onpath = whole or ("g%d" % j) in toks or (j < len(keys) and (keys[j], 2) in bad)
                         if onpath:
@@ -1217,6 +1233,19 @@ def c09(rep, tier, seed, wd, replay):
                 if ":" in h["impl"][i]:
                     yield ("jprop %s %s" % (key.hex(), f[4]), (i, 0, "release"))
 
+    def first_use(keys_, rng_):
+        """accounts still locked (first use after start-up), encrypted with different passphrases of the unlocker's list,
+        addressed together in one batch / by concurrent scatter workers: every valid, advancing request must be signed"""
+        H = []
+        for q in range(6 if tier != "thorough" else 40):
+            r2 = rng_.fork()
+            accts_ = [hist.Acct("Wallet 1", "Account %d" % i_, keys_[i_], pass2=(i_ % 2 == 1) if q % 2 == 0 else (i_ % 3 != 0)) for i_ in range(4)]
+            cfg_ = ["nocache"] + hist.config_lines(accts_, [("client1", "Wallet 1", ["All"])], [])
+            items = ";".join(att_item("n:" + hx(a_.path), 1, 2 + q, 0) for a_ in r2.shuffle(accts_))
+            ops_ = ["atts %s - - %s" % (hx("client1"), items)] + [att_line("client1", "n:" + hx(a_.path), 1, 9 + q, 0) for a_ in accts_[:2]]
+            H.append({"cfg": cfg_, "ops": ops_, "accts": accts_, "opts": {}})
+        return H
+
     def judge(rep, dh, wd, all_h):
         bad = judge_lines(rep, all_h, live_lines, "requests_judged_for_liveness")
         bad = [b for b in bad if b[-1] == "REFUSED-ADVANCING"]
@@ -1230,7 +1259,7 @@ def c09(rep, tier, seed, wd, replay):
     def twins(keys, rng):
         return []
     all_h = run_hist_property(rep, tier, seed, wd, "C09", SIGN_KINDS + ("export",), opts, sizes, judges=[judge],
-                              nontrivial=lambda h: any(o.startswith("atts") and ";" in o for o in h["ops"]), corpus=False)
+                              nontrivial=lambda h: any(o.startswith("atts") and ";" in o for o in h["ops"]), corpus=False, extra_hist=first_use)
     # (c) batch vs one-at-a-time on a twin instance
     pairs = []
     for h in all_h:
@@ -1782,6 +1811,21 @@ def c03(rep, tier, seed, wd, replay):
             seg = mout[pos:pos + n]
             pos += n
             cand.append(seg[1 + len(ops[:kk]):])
+            if kk == k:
+                pre_model = seg[1:1 + min(k, len(ops))]
+        # what was answered before the kill is what the model answers (a store fault must not end in a signature)
+        for oi, (x, y) in enumerate(zip(lines, pre_model)):
+            if hist.states_of(x) != hist.states_of(y) and not found:
+                if "S" in hist.states_of(x) and "s" in ops[oi].split(" "):
+                    rep.violation("released-despite-store-fault", "a request whose slashing-protection write failed was answered with a signature",
+                                  {"config": cfg, "ops": ops[:oi + 1], "kill_at_point": j, "impl": x[:200], "model": y[:200]})
+                    found = True
+                else:
+                    rep.broken.append(("correspondence:crash(replies before the kill differ from the model)",
+                                       json.dumps({"config": cfg, "ops": ops[:oi + 1], "impl": x[:200], "model": y[:200]}), False))
+                break
+        if found:
+            break
         rep.dist("killed_during_op", ops[k].split()[0] if k < len(ops) else "after-last")
         rep.count("%d|%d" % (hi, j), len(rel) > 0)
         if rc2 != 0 or len(out2) < len(cont):
@@ -1960,10 +2004,19 @@ def c18(rep, tier, seed, wd, replay):
 
 
 def grpc_histories(rng, keys, n_hist, n_ops, faults=True):
-    hs = engines.gen_histories(rng, keys, n_hist, n_ops, {"faults": faults, "huge": True, "admins": [["127.0.0.1"], ["10.0.0.1"], []]})
+    hs = engines.gen_histories(rng, keys, n_hist, n_ops, {"faults": faults, "huge": True,
+                                                          "admins": [["127.0.0.1"], ["127.0.0.2"], ["127.0.0.3", "127.0.0.2"], ["10.0.0.1"], []]})
+    r = rng.fork()
     for h in hs:
         h["cfg"] = ["viagrpc"] + h["cfg"]
         h["ops"] = [o for o in h["ops"] if o != "restart"]
+        # the request's source address is the REMOTE end of the connection: generic signing requests are sent from
+        # different loopback source addresses (the server end is always 127.0.0.1)
+        for i, o in enumerate(h["ops"]):
+            f = o.split(" ")
+            if f[0] in ("sign", "msign"):
+                f[2] = r.weighted([("-", 2), (hx("127.0.0.1"), 2), (hx("127.0.0.2"), 3), (hx("127.0.0.3"), 1)])
+                h["ops"][i] = " ".join(f)
     return hs
 
 
@@ -2656,17 +2709,17 @@ THEOREMS.update({
     "C12": ("Dirk.Props.C12", ["Dirk.Dkg.C12_share_consistent", "Dirk.Dkg.C12_same_key", "Dirk.Dkg.C12_recover", "Dirk.Dkg.C12_fewer_fail",
                                "Dirk.Dkg.C12_bounds", "Dirk.Dkg.C12_protocol_success", "Dirk.Dkg.C12_generation_succeeds", "Dirk.Dkg.C12_kernel_is_source"]),
     "C20": ("Dirk.Props.C20", ["Dirk.C20_sites_covered", "Dirk.C20_domain_slice_safe", "Dirk.C20_alloc_bounded", "Dirk.C20_dkg_non_peer",
-                               "Dirk.C20_handlers_shape", "Dirk.C20_legacy_counterexample"]),
+                               "Dirk.C20_handlers_shape", "Dirk.C20_kernel_is_source", "Dirk.C20_legacy_counterexample"]),
     "C19": ("Dirk.Props.C19", ["Dirk.C19_policy", "Dirk.C19", "Dirk.facts_tls_clientAuth", "Dirk.facts_tls_minVersion", "Dirk.facts_tls_clientCAs",
                                "Dirk.facts_tls_creds", "Dirk.facts_services", "Dirk.facts_interceptor", "Dirk.facts_clientName"]),
     "C18": ("Dirk.Props.C18Whole", ["Dirk.C18_sound", "Dirk.C18_complete", "Dirk.C18_fields", "Dirk.C18_dynamic",
                                     "Dirk.C18_complete_whole_name", "Dirk.C18_anchor_only_widens"]),
     "C14": ("Dirk.Props.C14", ["Dirk.C14", "Dirk.C14_proposals", "Dirk.C14_threshold_from_generation"]),
     "C13": ("Dirk.Props.C13", ["Dirk.Dkg.C13_reject", "Dirk.Dkg.C13_no_account", "Dirk.Dkg.C13_legacy_counterexample", "Dirk.Dkg.C13_kernel_is_source"]),
-    "C16": ("Dirk.Props.C16", ["Dirk.Dkg.C16_refuse_non_peer", "Dirk.Dkg.C16_share_owner"]),
+    "C16": ("Dirk.Props.C16", ["Dirk.Dkg.C16_refuse_non_peer", "Dirk.Dkg.C16_share_owner", "Dirk.Dkg.C16_kernel_is_source"]),
     "C17": ("Dirk.Props.C17", ["Dirk.Dkg.C17_prepare_twice", "Dirk.Dkg.C17_requires_active", "Dirk.Dkg.C17_gone_after",
                                "Dirk.Dkg.C17_commit_complete", "Dirk.Dkg.C17_independent_names", "Dirk.Dkg.C17_lifecycle_all_histories",
-                               "Dirk.Dkg.C17_legacy_counterexample"]),
+                               "Dirk.Dkg.C17_kernel_is_source", "Dirk.Dkg.C17_legacy_counterexample"]),
     "C03": ("Dirk.Props.C03", ["Dirk.C03_recorded_before_release", "Dirk.C03_refuses_after_crash", "Dirk.C03_released_never_slashable",
                                "Dirk.facts_sync_writes", "Dirk.facts_action_bytes"]),
     "C04": ("Dirk.Props.C04", ["Dirk.Conc.C04_mutual_exclusion", "Dirk.Conc.C04_commit_atomic", "Dirk.Conc.C04_linearizable",
@@ -2676,7 +2729,7 @@ THEOREMS.update({
                                    "Dirk.C08_signed_root", "Dirk.C08_att_root_binds", "Dirk.C08_header_root_binds", "Dirk.C08_generic_root_binds",
                                    "Dirk.C08_digest_length"]),
     "C09": ("Dirk.Props.C09", ["Dirk.C09_scatter_partition", "Dirk.C09_batch_eq_seq", "Dirk.C09_live_att_rule",
-                               "Dirk.C09_live_prop_rule", "Dirk.C09_live_att", "Dirk.C09_live_prop"]),
+                               "Dirk.C09_live_prop_rule", "Dirk.C09_live_att", "Dirk.C09_live_prop", "Dirk.C09_kernel_is_source"]),
     "C11": ("Dirk.Props.C11", ["Dirk.C11_codec_roundtrip", "Dirk.C11_restart", "Dirk.C11_import_export_same_decisions",
                                "Dirk.C11_export_exact", "Dirk.C11_last_is_highest"]),
     "C10": ("Dirk.Props.C10", ["Dirk.C10_never_lowers", "Dirk.C10_protects", "Dirk.C10_composes", "Dirk.C10_refuses_after_prop",
